@@ -175,6 +175,48 @@ func notifierRules(c *Ctx) {
 		}
 		pn := an.AllInstrs(q.fn, an.IsPanic)
 		q.add("PATH", "misuse panics", len(pn) >= 1, "a panic exit exists", pn...)
+		if name == "(*Notifier).SubscribeContext" {
+			// an existing record is never overwritten: the record is written only on the not-found side of the lookup
+			// of (key, target) - whatever state the existing subscription is in
+			var looks []ssa.Instruction
+			for _, in := range an.AllInstrs(q.fn, func(in ssa.Instruction) bool {
+				l, ok := in.(*ssa.Lookup)
+				if !ok || !l.CommaOk {
+					return false
+				}
+				mt, isMap := l.X.Type().Underlying().(*types.Map)
+				if !isMap {
+					return false
+				}
+				_, named := mt.Elem().(*types.Named)
+				return named && strings.HasSuffix(mt.Elem().String(), ".notifierSubscriber")
+			}) {
+				looks = append(looks, in)
+			}
+			var recs []ssa.Instruction
+			for _, m := range muts {
+				if mu, ok := m.(*ssa.MapUpdate); ok && strings.HasSuffix(mu.Value.Type().String(), ".notifierSubscriber") && !strings.HasPrefix(mu.Value.Type().String(), "map[") {
+					recs = append(recs, m)
+				}
+			}
+			if q.need(looks, "PATH", "lookup of the (key, target) record") && q.need(recs, "PATH", "store of the (key, target) record") {
+				okx := resultOf2(looks[0].(*ssa.Lookup), 1)
+				ifs, negs := P.IfsOn(q.fn, func(cond ssa.Value) bool { return okx != nil && cond == okx })
+				good := len(ifs) == 1
+				if good {
+					miss := 1
+					if negs[0] {
+						miss = 0
+					}
+					for _, m := range recs {
+						if !q.onlyViaEdge(m, ifs[0], miss) {
+							good = false
+						}
+					}
+				}
+				q.add("PATH", "a duplicate subscription always panics, whatever the state of the existing one", good, pickS(good, "the record is stored only on the not-found side of the lookup", "the record of an existing subscription can be overwritten: a second Subscribe for the same key and target returns normally, and the first owner's Unsubscribe then removes the second subscription"), recs...)
+			}
+		}
 		if name == "(*Notifier).Unsubscribe" {
 			// found => delete and return; not found => panic
 			dels := P.CallsTo(q.fn, "builtin:delete")
